@@ -382,7 +382,7 @@ def autosave_content(ctx) -> None:
         good = len(dumps) == 1 and strip_typed(dumps[0].pos[0]) == SELF and \
             (strip_typed(dumps[0].pos[1]) == strip_typed(handle) if handle else False) and \
             p.events.index(opens[0]) < p.events.index(dumps[0])
-        repl = [e for e in p.events if e.kind == "call" and e.name in ("os.replace", "os.rename")]
+        repl = [e for e in p.events if e.kind == "call" and e.name in ("os.replace", "os.rename", "shutil.move")]
         good = good and bool(repl) and p.events.index(dumps[0]) < p.events.index(repl[0])
         dumped = dumped and good
     ctx.require(nsave >= 1, "SAVE-content: no saving path in save_simulation")
